@@ -220,6 +220,9 @@ func VerifH_v6_new() {
 	size := vnd.Pick("size", 0, 128)
 	bb := vnd.Bytes("base", 16)
 	pool := net.IPNet{IP: net.IP(bb), Mask: net.CIDRMask(L, 128)}
+	if size-L > 12 && size-L < 64 {
+		return // pools of 2^13..2^63 blocks: building the bitmap is outside the bound (natively: out of memory)
+	}
 	a, err := NewBitmapAllocator(pool, size)
 	if size < L {
 		vnd.Cover("rejected")
@@ -230,9 +233,6 @@ func VerifH_v6_new() {
 		vnd.Cover("too-big")
 		vnd.Assert(err != nil, "C05 v6 constructor rejects unrepresentable pools")
 		return
-	}
-	if size-L > 12 {
-		return // allocating 2^13+ blocks symbolically is outside the bound
 	}
 	vnd.Cover("constructed")
 	vnd.Assert(err == nil && a != nil, "C05 v6 constructor accepts the pool")
